@@ -233,9 +233,6 @@ wait:
 		flushMon(c, m, &st)
 		return
 	}
-	m.mu.Lock()
-	np = len(m.panics)
-	m.mu.Unlock()
 	if !midClose {
 		o := m.newOp("Close", "", nil, "final", 0)
 		m.do(cache, o)
@@ -305,5 +302,3 @@ func reportStressStuck(c *lib.Case, m *mon, label string) {
 		c.Inconclusive("stress run did not finish within the watchdog, but no operation is parked in repository code")
 	}
 }
-
-var _ = lib.SubSeed
